@@ -1,0 +1,208 @@
+//go:build verif
+
+// Contracts for the verification machinery in /verif (comment-only; excluded from normal builds).
+// Property C04 (binary encoding of the leaves of a module). Mode int: mathematical integers, every +,-,*
+// and conversion carries a no-overflow / in-range obligation.
+//
+// LEB128: ulen(v) / ubyte(v, k) stand for the length and the k-th byte of the canonical unsigned LEB128
+// encoding of v. They are uninterpreted here; the encoders of internal/wasm/leb128 are used through the
+// contract below, which restates what property C19 proves of them (there: uleb_len / uleb_byte, defined in
+// exact bit-vector arithmetic, with the lemma small_uleb for values below 128).
+
+package binary
+
+//@ spec (declare-fun ulen (Int) Int)
+//@ spec (declare-fun ubyte (Int Int) Int)
+//@ axiom forall v Int {ulen(v)} :: 1 <= ulen(v) && ulen(v) <= 10
+//@ axiom forall v Int {ulen(v)} :: 0 <= v && v < (1 << 32) ==> ulen(v) <= 5
+//@ axiom forall v Int {ulen(v)} :: 0 <= v && v < 128 ==> ulen(v) == 1 && ubyte(v, 0) == v
+//@ extern leb128.EncodeUint32
+//@   mode int
+//@   ensures len(result) == ulen(int(v))
+//@   ensures forall k Int :: 0 <= k && k < len(result) ==> int(result[k]) == ubyte(int(v), k)
+//@   ensures isfresh(result)
+//@   trusted
+
+// ---- byte-sequence vocabulary: what a buffer holds from an offset on
+// uleb_at(res, o, v): the LEB128 encoding of v;  bytes_at(res, o, d): the bytes of d;
+// sized_at(res, o, d): d prefixed by its length (a vec(byte) of the binary format); name_at: the same for a string
+//@ spec uleb_at(res []byte, o int, v int) bool := forall k Int :: 0 <= k && k < ulen(v) ==> int(res[o+k]) == ubyte(v, k)
+//@ spec bytes_at(res []byte, o int, d []byte) bool := forall j Int :: 0 <= j && j < len(d) ==> res[o+j] == d[j]
+//@ spec sized_at(res []byte, o int, d []byte) bool := uleb_at(res, o, len(d)) && bytes_at(res, o + ulen(len(d)), d)
+//@ spec sized_len(d []byte) int := ulen(len(d)) + len(d)
+//@ spec str_at(res []byte, o int, s string) bool := forall j Int :: 0 <= j && j < len(s) ==> res[o+j] == s[j]
+//@ spec name_at(res []byte, o int, s string) bool := uleb_at(res, o, len(s)) && str_at(res, o + ulen(len(s)), s)
+//@ spec name_len(s string) int := ulen(len(s)) + len(s)
+// limits (5.3.5): flag f0 without a maximum, f0+1 with one
+//@ spec limits_at(res []byte, o int, f0 int, min uint32, max *uint32) bool :=
+//@      (max == nil ==> int(res[o]) == f0 && uleb_at(res, o+1, int(min))) &&
+//@      (max != nil ==> int(res[o]) == f0+1 && uleb_at(res, o+1, int(min)) && uleb_at(res, o+1+ulen(int(min)), int(*max)))
+//@ spec limits_len(min uint32, max *uint32) int := 1 + ulen(int(min)) + ite(max == nil, 0, ulen(int(*max)))
+
+// encodeValTypes: a vector of value types is its length followed by the types in order (5.1.3, 5.3.4) - on
+// the fast paths for common lengths and on the general path alike. A single type is served from a
+// package-level table (a Go map of byte slices, outside the engine's model): excluded from the claim.
+//@ func encodeValTypes
+//@   mode int
+//@   requires len(vt) < (1 << 32)
+//@   ensures[len]   len(vt) != 1 ==> len(result) == ulen(len(vt)) + len(vt)
+//@   ensures[count] len(vt) != 1 ==> uleb_at(result, 0, len(vt))
+//@   ensures[types] len(vt) != 1 ==> (forall j Int :: 0 <= j && j < len(vt) ==> result[ulen(len(vt)) + j] == vt[j])
+//@   safe
+//@   property C04
+
+//@ func encodeSizePrefixed
+//@   mode int
+//@   requires len(data) < (1 << 32)
+//@   ensures[len]   len(result) == sized_len(data)
+//@   ensures[bytes] sized_at(result, 0, data)
+//@   ensures[fresh] isfresh(result)
+//@   safe
+//@   property C04
+
+// a section: its id, the size of its contents, the contents (5.5.2)
+//@ func encodeSection
+//@   mode int
+//@   requires len(contents) < (1 << 32)
+//@   ensures[len]   len(result) == 1 + sized_len(contents)
+//@   ensures[bytes] result[0] == sectionID && sized_at(result, 1, contents)
+//@   ensures[fresh] isfresh(result)
+//@   safe
+//@   property C04
+
+// a name subsection: its id, the size of its contents, the contents (custom section "name")
+//@ func encodeNameSubsection
+//@   mode int
+//@   requires len(content) < (1 << 32)
+//@   ensures[len]   len(result) == 1 + sized_len(content)
+//@   ensures[bytes] result[0] == subsectionID && sized_at(result, 1, content)
+//@   ensures[fresh] isfresh(result)
+//@   safe
+//@   property C04
+
+// a name association: the index, then the name as a length-prefixed byte string
+//@ func encodeNameAssoc
+//@   mode int
+//@   requires na != nil && len(na.Name) < (1 << 32)
+//@   ensures[len]   len(result) == ulen(int(na.Index)) + name_len(na.Name)
+//@   ensures[bytes] uleb_at(result, 0, int(na.Index)) && name_at(result, ulen(int(na.Index)), na.Name)
+//@   ensures[fresh] isfresh(result)
+//@   safe
+//@   property C04
+
+//@ func encodeLimitsType
+//@   mode int
+//@   ensures[len]   len(result) == limits_len(min, max)
+//@   ensures[bytes] limits_at(result, 0, 0, min, max)
+//@   ensures[fresh] isfresh(result)
+//@   safe
+//@   property C04
+//@ func encodeLimitsType_i64
+//@   mode int
+//@   ensures[len]   len(result) == limits_len(min, max)
+//@   ensures[bytes] limits_at(result, 0, 4, min, max)
+//@   ensures[fresh] isfresh(result)
+//@   safe
+//@   property C04
+
+// a table type: the reference type, then the limits
+//@ func encodeTable
+//@   mode int
+//@   requires i != nil
+//@   ensures[len]   len(result) == 1 + limits_len(i.Min, i.Max)
+//@   ensures[bytes] result[0] == i.Type && limits_at(result, 1, 0, i.Min, i.Max)
+//@   safe
+//@   property C04
+
+// a memory type: limits with the maximum only when it is to be encoded; flag 4/5 for 64-bit addresses
+//@ func encodeMemory
+//@   mode int
+//@   requires i != nil
+//@   ensures[len]   len(result) == 1 + ulen(int(i.Min)) + ite(i.IsMaxEncoded, ulen(int(i.Max)), 0)
+//@   ensures[flag]  int(result[0]) == ite(i.AddrType == 0x7e, 4, 0) + ite(i.IsMaxEncoded, 1, 0)
+//@   ensures[min]   uleb_at(result, 1, int(i.Min))
+//@   ensures[max]   i.IsMaxEncoded ==> uleb_at(result, 1 + ulen(int(i.Min)), int(i.Max))
+//@   safe
+//@   property C04
+
+// an export: the name, the kind of the exported entity, its index
+//@ func encodeExport
+//@   mode int
+//@   requires i != nil && len(i.Name) < (1 << 32)
+//@   ensures[len]   len(result) == name_len(i.Name) + 1 + ulen(int(i.Index))
+//@   ensures[bytes] name_at(result, 0, i.Name) && result[name_len(i.Name)] == i.Type && uleb_at(result, name_len(i.Name) + 1, int(i.Index))
+//@   safe
+//@   property C04
+
+// a constant expression: opcode, immediate, end
+//@ func encodeConstantExpression
+//@   mode int
+//@   requires expr != nil
+//@   ensures[len]   len(ret) == len(expr.Data) + 2
+//@   ensures[bytes] ret[0] == expr.Opcode && bytes_at(ret, 1, expr.Data) && ret[len(expr.Data)+1] == 0x0b
+//@   ensures[fresh] isfresh(ret)
+//@   safe
+//@   property C04
+
+// a global: value type, mutability flag, initialiser
+//@ func encodeGlobal
+//@   mode int
+//@   requires g != nil && g.Init != nil && g.Type != nil
+//@   ensures[len]   len(data) == 2 + len(g.Init.Data) + 2
+//@   ensures[bytes] data[0] == g.Type.ValType && int(data[1]) == ite(g.Type.Mutable, 1, 0) && data[2] == g.Init.Opcode && bytes_at(data, 3, g.Init.Data) && data[len(g.Init.Data)+3] == 0x0b
+//@   safe
+//@   property C04
+
+// signed LEB128 (slen / sbyte), as ulen / ubyte above; zero encodes as the single byte 0
+//@ spec (declare-fun slen (Int) Int)
+//@ spec (declare-fun sbyte (Int Int) Int)
+//@ axiom forall v Int {slen(v)} :: 1 <= slen(v) && slen(v) <= 10
+//@ axiom forall v Int {slen(v)} :: 0 <= v && v < 64 ==> slen(v) == 1 && sbyte(v, 0) == v
+//@ extern leb128.EncodeInt32
+//@   mode int
+//@   ensures len(result) == slen(int(v))
+//@   ensures forall k Int :: 0 <= k && k < len(result) ==> int(result[k]) == sbyte(int(v), k)
+//@   ensures isfresh(result)
+//@   trusted
+
+// vt_at(res, o, vt): a vector of value types (length, then the types) at offset o
+//@ spec vt_at(res []byte, o int, vt []byte) bool := uleb_at(res, o, len(vt)) && (forall j Int :: 0 <= j && j < len(vt) ==> res[o + ulen(len(vt)) + j] == vt[j])
+//@ spec vt_len(vt []byte) int := ulen(len(vt)) + len(vt)
+
+// a function type: 0x60, the parameter types, the result types (5.3.4). Vectors with exactly one element
+// go through package-level tables (see encodeValTypes): parameter lists of length 1 are excluded, a single
+// result is written in place by this function and is covered.
+//@ func encodeFunctionType
+//@   mode int
+//@   requires t != nil && len(t.Params) < (1 << 32) && len(t.Results) < (1 << 32)
+//@   ensures[tag]     len(t.Params) != 1 && !(len(t.Params) == 0 && len(t.Results) == 1) ==> int(result[0]) == 0x60
+//@   ensures[params]  len(t.Params) != 1 && !(len(t.Params) == 0 && len(t.Results) == 1) ==> vt_at(result, 1, t.Params)
+//@   ensures[nores]   len(t.Params) != 1 && len(t.Results) == 0 ==> len(result) == 1 + vt_len(t.Params) + 1 && int(result[1 + vt_len(t.Params)]) == 0
+//@   ensures[oneres]  len(t.Params) > 1 && len(t.Results) == 1 ==> len(result) == 1 + vt_len(t.Params) + 2 && int(result[1 + vt_len(t.Params)]) == 1 && result[2 + vt_len(t.Params)] == t.Results[0]
+//@   ensures[results] len(t.Params) != 1 && len(t.Results) > 1 ==> len(result) == 1 + vt_len(t.Params) + vt_len(t.Results) && vt_at(result, 1 + vt_len(t.Params), t.Results)
+//@   safe
+//@   property C04
+
+// a data segment: memory index 0, the offset expression, the bytes as a length-prefixed vector (5.5.14)
+//@ func encodeDataSegment
+//@   mode int
+//@   requires d != nil && d.OffsetExpression != nil && len(d.Init) < (1 << 32)
+//@   ensures[len]   len(ret) == 1 + len(d.OffsetExpression.Data) + 2 + sized_len(d.Init)
+//@   ensures[bytes] int(ret[0]) == 0 && ret[1] == d.OffsetExpression.Opcode && bytes_at(ret, 2, d.OffsetExpression.Data) && int(ret[len(d.OffsetExpression.Data) + 2]) == 0x0b && sized_at(ret, len(d.OffsetExpression.Data) + 3, d.Init)
+//@   safe
+//@   property C04
+
+// an import: module name, entity name, kind, description (5.5.5)
+//@ func encodeImport
+//@   mode int
+//@   requires i != nil && len(i.Module) < (1 << 32) && len(i.Name) < (1 << 32)
+//@   requires i.Type == 1 ==> i.DescTable != nil
+//@   requires i.Type == 2 ==> i.DescMem != nil
+//@   requires i.Type == 3 ==> i.DescGlobal != nil
+//@   ensures[names]  name_at(result, 0, i.Module) && name_at(result, name_len(i.Module), i.Name) && result[name_len(i.Module) + name_len(i.Name)] == i.Type
+//@   ensures[func]   i.Type == 0 ==> len(result) == name_len(i.Module) + name_len(i.Name) + 1 + ulen(int(i.DescFunc)) && uleb_at(result, name_len(i.Module) + name_len(i.Name) + 1, int(i.DescFunc))
+//@   ensures[table]  i.Type == 1 ==> len(result) == name_len(i.Module) + name_len(i.Name) + 2 + limits_len(i.DescTable.Min, i.DescTable.Max) && int(result[name_len(i.Module) + name_len(i.Name) + 1]) == 0x70 && limits_at(result, name_len(i.Module) + name_len(i.Name) + 2, 0, i.DescTable.Min, i.DescTable.Max)
+//@   ensures[memory] i.Type == 2 ==> len(result) == name_len(i.Module) + name_len(i.Name) + 2 + ulen(int(i.DescMem.Min)) + ite(i.DescMem.IsMaxEncoded, ulen(int(i.DescMem.Max)), 0) && int(result[name_len(i.Module) + name_len(i.Name) + 1]) == ite(i.DescMem.IsMaxEncoded, 1, 0) && uleb_at(result, name_len(i.Module) + name_len(i.Name) + 2, int(i.DescMem.Min))
+//@   ensures[global] i.Type == 3 ==> len(result) == name_len(i.Module) + name_len(i.Name) + 3 && result[name_len(i.Module) + name_len(i.Name) + 1] == i.DescGlobal.ValType && int(result[name_len(i.Module) + name_len(i.Name) + 2]) == ite(i.DescGlobal.Mutable, 1, 0)
+//@   noframe
+//@   property C04
